@@ -912,3 +912,7 @@ LEVEL_NOTE = ("Exact arithmetic over Q; numpy.power abstract (contract at 0 and 
               "uniform; HiGHS feasibility assertion of the constructor outside the model; harness and printer trusted; no axioms")
 TECHNIQUE = "Coq proof (structural induction over the component list) on executable model + in-Coq differential correspondence"
 DESIGN_REF = "DESIGN.md section 7, C09"
+
+# --- second build round: additions to the claimed level
+LEVEL_TEXT += ("; stochastic-decode round trip iff every draw lies in its window (two-sided 1e-300 tails), completeness of the integer-feasible snap, "
+               "exact enumeration of the categorical neighbour lattice")
